@@ -226,5 +226,90 @@ def moveAroundBlockersTwo (n : Nat) (pp : Rat) (s : Stream) : Option (FlatProble
       | some p => some (p, 4 + n)
   | _ => none
 
+/-- `random.shuffle` of a two-element list: one draw `randbelow(2)`, swap when it is 0 -/
+def shuffle2 (a b : PItem) (s : Stream) : (PItem × PItem) × Stream :=
+  let (j, s) := draw 2 s
+  (if j = 0 then (b, a) else (a, b), s)
+
+/-- the variable parts of the terms of a binomial problem: `terms[i]` for the first `numVars` slots
+(`none` = the empty string).  `pp2` = `power_prob_percent * 2` -/
+def binomialVars (powers likeVars : Bool) (numVars : Nat) (pp2 : Rat) (s : Stream) :
+    Option (List (Char × Option (List Char))) × Stream :=
+  if likeVars then
+    let (v, s) := randVar s
+    if powers then
+      let (p, s) := maybePower pp2 s
+      (some (List.replicate numVars (v, p)), s)
+    else (some (List.replicate numVars (v, none)), s)
+  else
+    match getRandVarsS numVars [] s with
+    | (none, s) => (none, s)
+    | (some vs, s) =>
+      let rec go : List Char → Stream → List (Char × Option (List Char)) × Stream
+        | [], s => ([], s)
+        | v :: vs, s =>
+          if powers then
+            let (p, s) := maybePower pp2 s
+            let (r, s) := go vs s
+            ((v, p) :: r, s)
+          else
+            let (r, s) := go vs s
+            ((v, none) :: r, s)
+      let (r, s) := go vs s
+      (some r, s)
+
+/-- "conditionally attach coefficients": a slot with a variable keeps it bare when
+`simple_variables`, otherwise gets a `rand_number()` coefficient; an empty slot becomes a number -/
+def binomialTerms (simple : Bool) : Nat → List (Char × Option (List Char)) → Stream → List PItem × Stream
+  | 0, _, s => ([], s)
+  | n + 1, [], s =>
+    let (c, s) := randNumber s
+    let (r, s) := binomialTerms simple n [] s
+    (PItem.num c :: r, s)
+  | n + 1, (v, p) :: vs, s =>
+    if simple then
+      let (r, s) := binomialTerms simple n vs s
+      (PItem.term none v p :: r, s)
+    else
+      let (c, s) := randNumber s
+      let (r, s) := binomialTerms simple n vs s
+      (PItem.term (some c) v p :: r, s)
+
+/-- `gen_binomial_times_binomial(min_vars, max_vars, simple_variables, powers_probability,
+like_variables_probability)`; `pp` / `lp` = the probabilities * 100 -/
+def binomialTimesBinomial (minVars maxVars : Nat) (simple : Bool) (pp lp : Rat) (s : Stream) :
+    Option (BinomialProblem × Nat) :=
+  let (powers, s) := randBool pp s
+  let (likeVars, s) := randBool lp s
+  if maxVars < minVars then none else
+  let (numVars, s) := randint minVars maxVars s
+  if 4 < numVars then none else       -- `terms[i] = …` beyond the four slots: IndexError
+  match binomialVars powers likeVars numVars (pp * 2) s with
+  | (none, _) => none
+  | (some vars, s) =>
+    match binomialTerms simple 4 vars s with
+    | ([t0, t1, t2, t3], s) =>
+      let ((f0, f1), s) := shuffle2 t0 t2 s
+      let ((s0, s1), _) := shuffle2 t1 t3 s
+      some (.timesBinomial f0 f1 s0 s1, 6)
+    | _ => none
+
+/-- `gen_binomial_times_monomial(…)` -/
+def binomialTimesMonomial (minVars maxVars : Nat) (simple : Bool) (pp lp : Rat) (s : Stream) :
+    Option (BinomialProblem × Nat) :=
+  let (powers, s) := randBool pp s
+  let (likeVars, s) := randBool lp s
+  if maxVars < minVars then none else
+  let (numVars, s) := randint minVars maxVars s
+  if 3 < numVars then none else
+  match binomialVars powers likeVars numVars (pp * 2) s with
+  | (none, _) => none
+  | (some vars, s) =>
+    match binomialTerms simple 3 vars s with
+    | ([t0, t1, t2], s) =>
+      let ((f0, f1), _) := shuffle2 t0 t2 s
+      some (.timesMonomial f0 f1 t1, 3)
+    | _ => none
+
 end Gen
 end Mathy
